@@ -119,6 +119,9 @@ class Calls(Interp):
                 if isinstance(v, FuncV) and isinstance(v.node, ast.Lambda):
                     return BoundV(obj, v, mattr)     # a plain function in a class body is a method
                 return v
+        if m is not None and isinstance(m, tuple) and self.spec_mode:
+            m = None      # in specifications `obj.name` is the raw field, never a property getter (specs are pure)
+            k = None
         if m is not None:
             if isinstance(m, tuple):
                 getter = m[1][0]
@@ -247,6 +250,8 @@ class Calls(Interp):
         if tag is not None:
             return self.read_field(self.refof(obj), attr, tag, node, default)
         dyn = self.reg.shape_method(shape, "__getattr__")
+        if dyn is not None and dyn.total:
+            return BoundV(obj, dyn, attr)     # object implementing the whole protocol: every method exists
         if dyn is not None:
             # open object (raw target): any attribute; presence is a capability
             ref = self.refof(obj)
@@ -396,6 +401,12 @@ class Calls(Interp):
             return self.apply_contract(f.contract, args[0], args[1:], kwargs, node, star, dstar, mname=f.name)
         if isinstance(f, SV):
             kind, arg = parse_tag(f.ty)
+            if kind == "class":
+                # instantiation of a symbolic class (e.g. test.failureException): a new object of exactly that class
+                obj = self.alloc("object", "exc", type_term=Val.c(f.term))
+                r = self.refof(obj)
+                self.set_field(r, "args", Val.tup(so.seq_of([self.to_term(a, node) for a in args])))
+                return obj
             if kind in self.reg.shapes:
                 c = self.reg.shape_method(kind, "__call__")
                 if c is not None:
@@ -992,6 +1003,12 @@ class Calls(Interp):
             if not bs:
                 return BoolSV(not is_any and True or False) if is_any else BoolSV(True)
             return BoolSV(z3.Or(bs) if is_any else z3.And(bs))
+        defn = getattr(v, "defn", None)
+        if defn is not None:
+            n, j, bterm = defn
+            body = self.truthy(SV(bterm, None), node)
+            rng = z3.And(0 <= j, j < n)
+            return BoolSV(z3.Exists([j], z3.And(rng, body)) if is_any else z3.ForAll([j], z3.Implies(rng, body)))
         seq = self.as_seq(v, node)
         et = self.elem_tag(v)
         j = z3.Int("aj")
@@ -1139,7 +1156,11 @@ class Calls(Interp):
         return d
 
     def dict_value_tag(self, recv, keyval=None):
-        arg = parse_tag(recv.ty)[1] if isinstance(recv, SV) else None
+        arg = None
+        if isinstance(recv, SV):
+            kind, arg = parse_tag(recv.ty)
+            if kind == "opt":
+                arg = parse_tag(arg)[1]
         if arg is None:
             return None
         if arg.startswith("{"):
@@ -1578,6 +1599,9 @@ class Calls(Interp):
 
     def sp_isnone(self, args, kwargs, node):
         return BoolSV(self.to_term(args[0], node) == Val.none)
+
+    def sp_is_cls(self, args, kwargs, node):
+        return BoolSV(Val.is_cls(self.to_term(args[0], node)))
 
     def sp_is_ref(self, args, kwargs, node):
         return BoolSV(Val.is_ref(self.to_term(args[0], node)))
